@@ -3,6 +3,7 @@ package ast
 import (
 	"errors"
 	"fmt"
+	"sort"
 
 	comb "github.com/moorara/algo/parser/combinator"
 
@@ -244,22 +245,35 @@ func (m *mappers) ToCharGroup(r comb.Result) (comb.Result, bool) {
 
 	items := r2.Val.(comb.List)
 
-	charMap := make([]bool, len(parser.RuneClasses["ASCII"].Runes()))
+	// The characters listed in the group are not limited to the ASCII universe (e.g. [\x80], [\p{Greek}]).
+	marked := map[rune]bool{}
 	for _, r := range items {
 		if chars, ok := r.Bag[bagKeyChars].([]rune); ok {
 			for _, c := range chars {
-				charMap[c] = true
+				marked[c] = true
 			}
 		}
 	}
 
-	alt := new(Alt)
-	for i, marked := range charMap {
-		if (!neg && marked) || (neg && !marked) {
-			alt.Exprs = append(alt.Exprs, &Char{
-				Val: rune(i),
-			})
+	var chars []rune
+	if neg {
+		for _, c := range parser.RuneClasses["ASCII"].Runes() {
+			if !marked[c] {
+				chars = append(chars, c)
+			}
 		}
+	} else {
+		for c := range marked {
+			chars = append(chars, c)
+		}
+		sort.Slice(chars, func(i, j int) bool { return chars[i] < chars[j] })
+	}
+
+	alt := new(Alt)
+	for _, c := range chars {
+		alt.Exprs = append(alt.Exprs, &Char{
+			Val: c,
+		})
 	}
 
 	return comb.Result{
